@@ -268,7 +268,13 @@ def sendRes (sp : SendParams) (c : Ctr) : SendRes :=
   else if !sp.clOk then .noSender
   else .sent (c.wire sp.crcs)
 
-/-- `send_bundle`: returns the mutated container too (the caller reports on it). -/
+/-- `send_bundle(ctr, as_source=False)`: a received bundle (or a fragment): the primary block is
+    complete and is sent as it is — `_apply_primary` does not run. -/
+def sendAsIs (_cfg : Cfg) (st : St) (_now : Nat) (sp : SendParams) (c : Ctr) : St × Ctr × SendRes :=
+  (st, c, sendRes sp c)
+
+/-- `send_bundle(ctr)` with `as_source=True` (locally built bundles, e.g. status reports):
+    returns the mutated container too. -/
 def sendBundle (cfg : Cfg) (st : St) (now : Nat) (sp : SendParams) (c : Ctr) : St × Ctr × SendRes :=
   let r := applyPrimary cfg st now c
   (r.1, r.2, sendRes sp r.2)
@@ -305,7 +311,7 @@ def doFwd (cfg : Cfg) (st : St) (now : Nat) (sp : SendParams) : St × List Effec
     let e := fwdEdit cfg { st with fwdQ := q } now c0
     if !e.2.2 then fwdFail e.1 e.2.1 now []
     else
-      let s := sendBundle cfg e.1 now sp e.2.1
+      let s := sendAsIs cfg e.1 now sp e.2.1
       match s.2.2 with
       | .sent b =>
         let f := finish s.1 (s.2.1.record .forward now)
